@@ -496,6 +496,11 @@ package zygo
 //@ C01 assert nesting-is-bounded @before call ParseList[*]: depthAtEntry >= 0 && depthAtEntry < 1099511627776 ==> depthAtEntry < 20000
 //@ C01 assert nesting-is-bounded-array @before call ParseArray[*]: depthAtEntry >= 0 && depthAtEntry < 1099511627776 ==> depthAtEntry < 20000
 //@ C01 assert nesting-is-bounded-infix @before call ParseInfix[*]: depthAtEntry >= 0 && depthAtEntry < 1099511627776 ==> depthAtEntry < 20000
+// a loop record is made by the compiler and shared by every activation of the compiled loop
+// (recursive calls run the same code): nothing may write into it at run time, and it has no
+// room for per-activation state
+//@ writers C02,C04 Loop | stmtname, label, scopeDepth, loopStart, loopLen, breakOffset, continueOffset | (*Generator).GenerateForLoop
+//@ fieldsclosed C04 Loop | stmtname, label, scopeDepth, loopStart, loopLen, breakOffset, continueOffset
 // mdef: every target slot is filled with a symbol before the value is compiled; the bind
 // instruction hands each one to BindSymbol, which dereferences it
 //@ func (*Generator).GenerateMultiDef
